@@ -66,6 +66,9 @@ CHECKS = {
  "C06": ("exploration", "differential run-time monitor: aggregate queries under all 32 optimizer settings vs independent reference aggregate semantics",
          "held on every generated aggregate query of the run under each of the 32 configurations: groups and values equal the reference evaluator's (avg within 1e-9)",
          "trusted: the reference evaluator's aggregate semantics (one contribution per distinct valuation of all body variables)", "3/C06"),
+ "C35": ("exploration", "run-time monitor: ordered/paginated answers vs the unsorted full answer of the same query with an independent comparator",
+         "held on every generated relation/query of the run: sub-multiset, slice size, total_count, adjacent comparable keys in order, and (when all keys are comparable) the exact key sequence of positions [o, o+n) of the sorted answer",
+         "trusted: the unsorted unpaginated answer of the same query; the harness's comparator on comparable pairs only", "3/C35"),
 }
 NOT_YET = "monitor not built yet in this round (design in DESIGN.md section 3); not claimed until a check exists"
 
